@@ -20,6 +20,7 @@
                          arguments are generated, zip(keys, map(...)), VALUES / ITEMS argument shape
      M_batch_pool        batch.py:407-420, 471-487, 517-533 (apply, apply_items, _apply_attr)
      M_batch_pool_except batch.py:422-447, 489-561        submit per item, skip listed exceptions
+     ctor_series / ctor_labels / ctor_elements   node_iter.py:437-476, frame.py:1376-1420 (the apply constructors)
      (zipped stores and StoreConfigMap: SF/PoolStore.v)
    and the specifications S_* : the plain sequential loops of the same files. *)
 Require Import SF.Prelude.
